@@ -121,7 +121,8 @@ def worker_main(prop, tier, seed, widx, n_workers, budget, outfile, shrink_secon
         for lab in set(out.labels):
             stats["labels"][lab] = stats["labels"].get(lab, 0) + 1
         for k, v in out.info.items():
-            stats["info"][k] = max(stats["info"].get(k, v), v)
+            # keys starting with "sum_" are totals, everything else is a maximum
+            stats["info"][k] = stats["info"].get(k, 0) + v if k.startswith("sum_") else max(stats["info"].get(k, v), v)
         for fid in out.excluded:
             stats["excluded"][fid] = stats["excluded"].get(fid, 0) + 1
         if out.nontrivial:
@@ -442,7 +443,7 @@ def merge(shards):
         for k, v in st["labels"].items():
             m["labels"][k] = m["labels"].get(k, 0) + v
         for k, v in st["info"].items():
-            m["info"][k] = max(m["info"].get(k, v), v)
+            m["info"][k] = m["info"].get(k, 0) + v if k.startswith("sum_") else max(m["info"].get(k, v), v)
         for k, v in st["excluded"].items():
             m["excluded"][k] = m["excluded"].get(k, 0) + v
         for sig, rec in st["failures"].items():
